@@ -7,7 +7,7 @@ class C01(SCheck):
     prop = "C01"
     level = "exploration"
     default_seed = 1001
-    N = {"quick": 250, "thorough": 6000}
+    N = {"quick": 500, "thorough": 6000}
     K = {"quick": 3, "thorough": 6}
     technique = "deterministic simulation: seeded schedules x simulated per-call kernel I/O limit, snapshot oracle (size + content hash)"
     rule = ("case = 1-4 regular files with sizes at block / kernel-limit boundaries (0, 1, kB-1, kB, kB+1, >M), dense or holey layouts, prior "
